@@ -40,6 +40,8 @@ func init() {
 			}
 		}
 		addv(2, "connect+close", "connect+send", "none", false)
+		addv(2, "connect+close", "connect", "none", false)
+		addv(2, "connect+close", "connect", "shutdown", false)
 		addv(1, "connect+close", "connect+send", "none", false)
 		if tier == "thorough" {
 			addv(2, "connect+close", "connect+send", "shutdown", false)
@@ -196,6 +198,16 @@ func serverScenario(pollers int, c1, c2, shutdown string, emfile bool) *vsched.S
 				if l.count(fmt.Sprintf("prepare fd=%d", r.Fd)) == 0 {
 					add("accepted-without-prepare", fmt.Sprintf("descriptor %d was accepted but OnPrepare never ran for it", r.Fd))
 				}
+			}
+		}
+		// an accepted connection stays tracked until it is closed
+		tracked := map[int]bool{}
+		for _, fd := range fds {
+			tracked[fd] = true
+		}
+		for _, r := range led.Recs {
+			if r.Kind == "accepted" && r.Closes <= 0 && !tracked[r.Fd] && l.last(fmt.Sprintf("connect fd=%d", r.Fd)) >= 0 {
+				add("live-connection-untracked", fmt.Sprintf("accepted connection on descriptor %d is still open (OnConnect ran) but the server no longer tracks it", r.Fd))
 			}
 		}
 		if shutdown == "none" && !emfile && accepted != connected {
